@@ -37,8 +37,16 @@ func propertiesOf(spec *FuncSpec, f Fact) []string {
 			return []string{"C16"}
 		}
 	case "lock", "perm":
-		if has("C01") {
-			return []string{"C01"}
+		// lock protocol and permissions are C01's obligations; the linearizability argument of C02 (atomic
+		// specification per critical section) stands on the same discipline, so they count there too
+		var out []string
+		for _, p := range []string{"C01", "C02"} {
+			if has(p) {
+				out = append(out, p)
+			}
+		}
+		if len(out) > 0 {
+			return out
 		}
 	case "lp":
 		if has("C02") {
